@@ -241,6 +241,19 @@ def extra_variants(data):
     acts = v.get('action_space') or [a.name for a in Action]
     v['action_space'] = list(reversed(acts))
     out.append(('reversed action_space', v))
+    if not data.get('action_space') or len(data['action_space']) >= 6:
+        for label, acts in (('forward + turns only', ['MOVE_FORWARD', 'TURN_LEFT', 'TURN_RIGHT']),
+                            ('four moves + one turn', ['MOVE_FORWARD', 'MOVE_BACKWARD', 'MOVE_LEFT', 'MOVE_RIGHT', 'TURN_LEFT']),
+                            ('turns only', ['TURN_RIGHT', 'TURN_LEFT'])):
+            v = copy.deepcopy(data)
+            v['action_space'] = acts
+            out.append((f'partial action_space ({label})', v))
+    # observation_space section differing from the state_space section (every shipped file repeats the same lists)
+    v = copy.deepcopy(data)
+    extra_c = next(c for c in ('BLUE', 'GREEN', 'RED', 'YELLOW') if c not in v['observation_space']['colors'] or True)
+    v['observation_space'] = {'objects': list(v['observation_space']['objects']) + [o for o in ('Beacon', 'Telepod') if o not in v['observation_space']['objects']][:1],
+                              'colors': sorted(set(v['observation_space']['colors']) | {extra_c})}
+    out.append(('observation_space differing from state_space', v))
     v = copy.deepcopy(data)
     of = v['observation_function']
     if of.get('name') in ('partially_occluded', 'raytracing', 'fully_transparent'):
@@ -382,8 +395,18 @@ def mutations(tree):
             yield 'distance unknown', path, with_value(tree, path, 'chebyshev')
 
 
-def judge_mutation(mutated, seeds):
-    """returns (class, message)"""
+def judge_mutation(mutated, seeds, debug=True):
+    """returns (class, message); debug=False evaluates the library with its debug flag off (rejection of a malformed
+    configuration must not depend on it)"""
+    if not debug:
+        from gym_gridverse.debugging import reset_gv_debug
+
+        reset_gv_debug(False)
+        try:
+            cls, m = judge_mutation(mutated, seeds, debug=True)
+        finally:
+            reset_gv_debug(True)
+        return cls, (m + ' [debug flag off]' if m else None)
     try:
         hand = ASM.assemble(copy.deepcopy(mutated))
         expect = 'build'
@@ -417,6 +440,8 @@ def _mut_work(job):
             continue
         n += 1
         cls, m = judge_mutation(mutated, seeds)
+        if not m and cls == 'reject':
+            cls, m = judge_mutation(mutated, seeds, debug=False)
         rej += 1 if cls == 'reject' else 0
         if m and len(fails) < 3:
             fails.append({'kind': 'mutation', 'config': name, 'index': j, 'label': label, 'path': list(p), 'seeds': list(seeds),
@@ -543,16 +568,21 @@ def judge_registry(kind, fname):
             if call_component(kind, f_falsy, inp) != want:
                 shown = {k: v for k, v in falsy.items() if isinstance(v, (bool, int, float))}
                 return n, f'factory({fname!r}, **kw) with zero/False values {shown} behaves differently from {fname}(**kw)'
-    for r in required:
+    from gym_gridverse.debugging import reset_gv_debug
+
+    for r, dbg in [(r, d) for r in required for d in (True, False)]:
         n += 1
+        reset_gv_debug(dbg)
         try:
             factory(fname, **{k: v for k, v in kw.items() if k != r})
         except ValueError:
-            pass
+            reset_gv_debug(True)
         except Exception as e:  # noqa: BLE001
+            reset_gv_debug(True)
             return n, f'factory({fname!r}) without required {r!r} raised {type(e).__name__}, expected ValueError'
         else:
-            return n, f'factory({fname!r}) accepted a call without the required parameter {r!r}'
+            reset_gv_debug(True)
+            return n, f'factory({fname!r}) accepted a call without the required parameter {r!r} (debug flag {dbg})'
     return n, None
 
 
@@ -567,7 +597,7 @@ def replay(case):
         tree = configs.load(dict(configs.all_configs(include_examples=True))[case['config']])
         for j, (label, p, mutated) in enumerate(mutations(tree)):
             if j == case['index']:
-                return judge_mutation(mutated, case['seeds'])[1]
+                return judge_mutation(mutated, case['seeds'])[1] or judge_mutation(mutated, case['seeds'], debug=False)[1]
         return None
     if k == 'registry':
         return judge_registry(case['registry'], case['name'])[1]
